@@ -115,6 +115,13 @@ class KnownFindings:
         if os.path.exists(path):
             with open(path, encoding="utf-8") as f:
                 self.entries = json.load(f).get("findings", [])
+        # proposals awaiting review (merged into known_findings.json by the lead)
+        ddir = os.path.join(VERIF_ROOT, "known_findings.d")
+        if os.path.isdir(ddir):
+            for name in sorted(os.listdir(ddir)):
+                if name.endswith(".json"):
+                    with open(os.path.join(ddir, name), encoding="utf-8") as f:
+                        self.entries.extend(json.load(f).get("findings", []))
 
     def for_property(self, pid, status=None):
         return [e for e in self.entries if e["property"] == pid and (status is None or e["status"] == status)]
